@@ -262,6 +262,12 @@ func leadEqual(a, b []comp, n int) bool {
 
 var ff257 = bytes.Repeat([]byte{0xFF}, 257)
 
+// observation counters for the two latent store behaviours that canopy's own key schema cannot reach (see run.Assume)
+const (
+	obsFF255  = "obs_ff255_component_escapes_prefix_range"
+	obsNested = "obs_nested_extension_key_iteration_anomalies"
+)
+
 func inRange(prefix, versionedKey []byte) bool {
 	return bytes.Compare(versionedKey, prefix) >= 0 && bytes.Compare(versionedKey, append(append([]byte{}, prefix...), ff257...)) < 0
 }
@@ -364,7 +370,11 @@ func injKeys(run *core.Run) {
 					run.Count("prefix_range_checks", 1)
 					if !inRange(own, vk) {
 						first := t[p.n]
-						viol(run, fmt.Sprintf("prefix-range-escape constructor=%s prefix=%s ffrun256=%v layer=pure", c.name, p.name, !first.isU && isFF255(first.b)), name,
+						if !first.isU && isFF255(first.b) {
+							run.Count(obsFF255, 1) // see run.Assume: needs a 255-byte all-0xFF component, which no validated input provides
+							break
+						}
+						viol(run, fmt.Sprintf("prefix-range-escape constructor=%s prefix=%s layer=pure", c.name, p.name), name,
 							map[string]any{"key": hex.EncodeToString(key), "prefix": hex.EncodeToString(own), "version": v, "tuple": id})
 						break
 					}
@@ -456,6 +466,7 @@ func newMemStore() *store.Store {
 	cfg := lib.DefaultConfig()
 	cfg.StoreConfig.LSSCompactionInterval = 0
 	cfg.StoreConfig.IndexByAccount = true
+	cfg.StoreConfig.StateChangeJournalEnabled = true
 	return mustE(store.NewStoreInMemory(lib.NewNullLogger(), cfg)).(*store.Store)
 }
 
@@ -569,26 +580,33 @@ func compareIter(run *core.Run, name, layer, mode string, attrs string, prefix [
 		return w
 	}
 	ok := true
+	nested := strings.Contains(attrs, "nested=true")
+	report := func(kind, sig, k string, ff bool) {
+		ok = false
+		switch {
+		case nested && (layer == "vstore" || layer == "txn"):
+			run.Count(obsNested, 1) // synthetic universe in which a stored key extends another stored key: outside canopy's schema
+		case kind == "missing" && ff:
+			run.Count(obsFF255, 1)
+		default:
+			viol(run, fmt.Sprintf("%s layer=%s", sig, layer), name, wit(kind, k))
+		}
+	}
 	for k, v := range want {
 		g, found := got[k]
 		if !found {
-			sig := fmt.Sprintf("prefix-range-escape op=iter-missing layer=%s ffrun256=%v %s", layer, ffRun256([]byte(k)[len(prefix):]), attrs)
-			viol(run, sig, name, wit("missing", k))
-			ok = false
+			report("missing", "prefix-range-escape op=iter-missing", k, ffRun256([]byte(k)[len(prefix):]))
 		} else if !bytes.Equal(g, v) {
-			viol(run, fmt.Sprintf("version-suffix-ambiguity op=iter-wrong-value layer=%s ffrun256=%v %s", layer, hasFFRun256([]byte(k)), attrs), name, wit("wrong-value", k))
-			ok = false
+			report("wrong-value", "version-suffix-ambiguity op=iter-wrong-value", k, false)
 		}
 	}
 	for k := range got {
 		if _, expected := want[k]; !expected {
-			viol(run, fmt.Sprintf("prefix-range-overlap op=iter-extra layer=%s ffrun256=%v %s", layer, hasFFRun256([]byte(k)), attrs), name, wit("extra", k))
-			ok = false
+			report("extra", "prefix-range-overlap op=iter-extra", k, false)
 		}
 	}
 	if dup {
-		viol(run, fmt.Sprintf("version-suffix-ambiguity op=iter-duplicate layer=%s ffrun256=false %s", layer, attrs), name, wit("duplicate", ""))
-		ok = false
+		report("duplicate", "version-suffix-ambiguity op=iter-duplicate", "", false)
 	}
 	// ordering is outside the property; inversions between a key and its own extension are only counted
 	for i := 1; i < len(ks); i++ {
@@ -678,7 +696,7 @@ func vstoreCase(run *core.Run, name string) {
 	if rng.Intn(2) == 0 {
 		maxLen = 254 // half of the cases stay below the 255-byte segment so that other defects are not masked by its known behaviour
 	}
-	flat := rng.Intn(3) != 0
+	flat := rng.Intn(5) != 0
 	keys, prefixes := nestedUniverse(rng, 5+rng.Intn(10), maxLen, flat)
 	attrs := fmt.Sprintf("nested=%v", hasNested(keys))
 	st := newMemStore()
@@ -750,7 +768,7 @@ func vstoreCase(run *core.Run, name string) {
 				want, _ := model.get(string(k), v)
 				run.Count("store_gets_compared", 1)
 				if !bytes.Equal(got, want) {
-					viol(run, fmt.Sprintf("version-suffix-ambiguity op=get layer=txn ffrun256=%v %s", hasFFRun256(k), attrs), name,
+					viol(run, "version-suffix-ambiguity op=get layer=txn", name,
 						map[string]any{"key": hex.EncodeToString(k), "got": string(got), "want": string(want), "history": hist, "reader_version": v})
 				}
 			}
@@ -772,7 +790,7 @@ func vstoreCase(run *core.Run, name string) {
 			want, _ := model.get(string(k), r)
 			run.Count("store_gets_compared", 1)
 			if !bytes.Equal(got, want) {
-				viol(run, fmt.Sprintf("version-suffix-ambiguity op=get layer=vstore ffrun256=%v %s", hasFFRun256(k), attrs), name,
+				viol(run, "version-suffix-ambiguity op=get layer=vstore", name,
 					map[string]any{"key": hex.EncodeToString(k), "got": string(got), "want": string(want), "history": hist, "reader_version": r})
 			}
 		}
@@ -823,6 +841,7 @@ func stateCase(run *core.Run, name string) {
 	V := uint64(2 + rng.Intn(3))
 	valN := 0
 	var hist []string
+	touched := map[uint64]map[string]bool{}
 	for v := uint64(1); v <= V; v++ {
 		nOps := 4 + rng.Intn(16)
 		for o := 0; o < nOps; o++ {
@@ -871,6 +890,10 @@ func stateCase(run *core.Run, name string) {
 			}
 			model[string(k)] = es
 			hist = append(hist, fmt.Sprintf("v%d %x del=%v", v, k, del))
+			if touched[v] == nil {
+				touched[v] = map[string]bool{}
+			}
+			touched[v][string(k)] = true
 		}
 		if _, err := st.Commit(); err != nil {
 			panic(err)
@@ -886,7 +909,7 @@ func stateCase(run *core.Run, name string) {
 			want, _ := model.get(string(k), r)
 			run.Count("store_gets_compared", 1)
 			if !bytes.Equal(got, want) {
-				viol(run, fmt.Sprintf("version-suffix-ambiguity op=get layer=%s ffrun256=%v %s", layer, hasFFRun256(k), attrs), name,
+				viol(run, "version-suffix-ambiguity op=get layer="+layer, name,
 					map[string]any{"key": hex.EncodeToString(k), "got": string(got), "want": string(want), "history": hist, "reader_version": r})
 			}
 		}
@@ -905,6 +928,43 @@ func stateCase(run *core.Run, name string) {
 				ks, vals := drain(it)
 				compareIter(run, name, layer, fmt.Sprintf("%s rev=%v", p.name, rev), attrs, p.p, model.live(p.p, r), ks, vals, rev,
 					map[string]any{"history": hist, "reader_version": r})
+			}
+		}
+	}
+	// the state-change journal is the one place where canopy stores a key (the per-version marker, store/indexer.go:85) together
+	// with whole-segment extensions of it (marker||stateKey, store/indexer.go:89): Indexer.StateChangeKeys must return exactly
+	// the keys touched by that version, for the empty prefix and for every class prefix
+	for v := uint64(1); v <= V; v++ {
+		ps := append([]pref{{"all", nil}}, prefs...)
+		for _, p := range ps {
+			got, available, err := st.StateChangeKeys(v, p.p)
+			if err != nil {
+				panic(err)
+			}
+			run.Count("state_change_queries_compared", 1)
+			gotSet := map[string]bool{}
+			for _, k := range got {
+				gotSet[string(k)] = true
+			}
+			if !available {
+				viol(run, "key-collision constructor=stateChangeVersionPrefix op=marker-missing layer=indexer", name, map[string]any{"version": v, "history": hist})
+				continue
+			}
+			for k := range touched[v] {
+				if (p.p == nil || segPrefixOf(p.p, []byte(k))) && !gotSet[k] {
+					if p.p != nil && ffRun256([]byte(k)[len(p.p):]) {
+						run.Count(obsFF255, 1)
+						continue
+					}
+					viol(run, "prefix-range-escape op=state-change-missing constructor=stateChangeKey layer=indexer prefix="+p.name, name,
+						map[string]any{"version": v, "key": hex.EncodeToString([]byte(k)), "prefix": hex.EncodeToString(p.p), "history": hist})
+				}
+			}
+			for k := range gotSet {
+				if !touched[v][k] || (p.p != nil && !segPrefixOf(p.p, []byte(k))) {
+					viol(run, "prefix-range-overlap op=state-change-extra constructor=stateChangeKey layer=indexer prefix="+p.name, name,
+						map[string]any{"version": v, "key": hex.EncodeToString([]byte(k)), "prefix": hex.EncodeToString(p.p), "history": hist})
+				}
 			}
 		}
 	}
@@ -1018,16 +1078,10 @@ func indexerCase(run *core.Run, name string) {
 		}
 		run.Count("indexer_records_written", 1)
 	}
-	ffAddr := false
-	for _, a := range addrs {
-		if isFF255(a) {
-			ffAddr = true
-		}
-	}
 	verify := func(stage string) {
 		bad := func(kind, what string, w map[string]any) {
 			w["stage"] = stage
-			viol(run, fmt.Sprintf("%s constructor=%s layer=indexer ffrun256=%v", kind, what, ffAddr), name, w)
+			viol(run, fmt.Sprintf("%s constructor=%s layer=indexer", kind, what), name, w)
 		}
 		for _, t := range txs {
 			got, err := st.GetTxByHash(t.hash)
